@@ -384,6 +384,86 @@ func c16Real(kind string, dir string, pre, klen, vlen int) (msg string) {
 	return check(db, "after a restart", pre+2)
 }
 
+// c16GrowPastMapping: records written where the segment file outgrows the file system's initial mapping window (1 GiB
+// for fs.OSMMap). Writing a gigabyte of records is replaced by extending the cleanly closed segment sparsely to 4 KiB
+// below 1 GiB (a clean Open appends at the file's length and never reads the hole); then admissible records are put
+// across the boundary: each must be acknowledged and read back byte-exact at once and after a restart.
+func c16GrowPastMapping(kind, dir string) (msg string) {
+	defer func() {
+		if r := recover(); r != nil {
+			msg = fmt.Sprintf("panic: %v", r)
+		}
+	}()
+	debug.SetPanicOnFault(true)
+	t := &explore.RealTarget{Kind: kind, Dir: dir}
+	t.Clean()
+	defer t.Clean()
+	opts := explore.BIGC.Options(t.FS())
+	db, err := pogreb.Open(dir, opts)
+	if err != nil {
+		return "Open: " + err.Error()
+	}
+	if err := db.Put([]byte("first"), []byte("v")); err != nil {
+		return "Put: " + err.Error()
+	}
+	if err := db.Close(); err != nil {
+		return "Close: " + err.Error()
+	}
+	segs, _ := filepath.Glob(filepath.Join(dir, "*.psg"))
+	if len(segs) != 1 {
+		return fmt.Sprintf("harness: %d segment files", len(segs))
+	}
+	if err := os.Truncate(segs[0], 1<<30-4096); err != nil {
+		return "harness: " + err.Error()
+	}
+	db, err = pogreb.Open(dir, opts)
+	if err != nil {
+		return "Open of the extended database: " + err.Error()
+	}
+	closed := false
+	defer func() {
+		if !closed {
+			_ = db.Close()
+		}
+	}()
+	want := map[string][]byte{"first": []byte("v")}
+	check := func(when string) string {
+		for k, v := range want {
+			got, err := db.Get([]byte(k))
+			if err != nil {
+				return fmt.Sprintf("%s: Get(%s): %v", when, k, err)
+			}
+			if !bytes.Equal(got, v) {
+				return fmt.Sprintf("%s: Get(%s) returned %d bytes (sha %x), want %d bytes (sha %x)", when, k, len(got), sha256.Sum256(got), len(v), sha256.Sum256(v))
+			}
+		}
+		if n := int(db.Count()); n != len(want) {
+			return fmt.Sprintf("%s: Count=%d want %d", when, n, len(want))
+		}
+		return ""
+	}
+	for i := 0; i < 4; i++ {
+		k, v := fmt.Sprintf("across-%d", i), patBytes(3000, byte(0x40+i))
+		if err := db.Put([]byte(k), v); err != nil {
+			return fmt.Sprintf("Put #%d of a 3000-byte value at segment offset ~1 GiB returned %v", i+1, err)
+		}
+		want[k] = v
+		if m := check(fmt.Sprintf("right after Put #%d at segment offset ~1 GiB", i+1)); m != "" {
+			return m
+		}
+	}
+	closed = true
+	if err := db.Close(); err != nil {
+		return "Close: " + err.Error()
+	}
+	db, err = pogreb.Open(dir, opts)
+	if err != nil {
+		return "reopen: " + err.Error()
+	}
+	closed = false
+	return check("after a restart")
+}
+
 func c16RealLayer(c *explore.Ctx) {
 	scratch, err := os.MkdirTemp("/dev/shm", "pogverif-c16-")
 	if err != nil {
@@ -395,6 +475,20 @@ func c16RealLayer(c *explore.Ctx) {
 		vlens = append(vlens, 300<<20)
 	}
 	for _, kind := range []string{"osmmap", "os"} {
+		if c.Mine() {
+			c.Add("executions", 1)
+			c.Add("round_trips_real_fs", 1)
+			c.Distinct("case", explore.Hash64("real-grow", kind))
+			if msg := c16GrowPastMapping(kind, filepath.Join(scratch, kind+"-grow")); msg != "" {
+				c.Violation(explore.Violation{
+					Key:    "grow-past-mapping fs=" + kind,
+					What:   fmt.Sprintf("fs=%s, segment extended sparsely to 4 KiB below 1 GiB, then four Puts of 3000-byte values: %s", kind, strings.ReplaceAll(msg, scratch, "<scratch>")),
+					Size:   1,
+					Replay: map[string]interface{}{"kind": "grow16", "fs": kind, "observed": msg},
+				})
+				return
+			}
+		}
 		for _, pre := range []int{0, 2} {
 			for _, vlen := range vlens {
 				if !c.Mine() {
@@ -507,7 +601,7 @@ func init() {
 		Prop:  "C16",
 		Level: "exploration",
 		Rule: "boundary alphabet: key lengths {0,1,2,255,256,65534,65535} x value lengths {0,1,65535,65536,1 MiB} + the lengths that make the record end at a 512-byte / bufio-window / 64 KiB boundary -5..+1 (so that the length prefix of the following small record straddles it), each put into an empty database and after 1 and 2 small records, under the default segment size and under 1 KiB segments (record larger than the remaining space / than a whole segment): byte-exact Get/GetAppend/Has/scan/Count right after the Put, after recovery of the unclean image, after a clean restart and after deleting the key again. " +
-			"Limits: keys of 65536, 65537 and 65536+n / 131072+n bytes whose first n bytes equal a stored n-byte key AND whose 32-bit hash is forged to equal the stored key's hash (n in {0,4,8,16,256,65532}; n = 0: the stored key is the empty key): Put must fail and leave file-system image, file list and Count unchanged, Get/GetAppend/Has/Delete must behave as for an absent key; value of MaxValueLength+1 rejected the same way (thorough: exactly MaxValueLength round-trips incl. recovery). On the repository's own file systems (fs.OSMMap: mapped files whose mapping grows; fs.OS): values of 0, 64 KiB, 3 MiB, 70 MiB, 130 MiB (thorough: 300 MiB) into an empty database and after 2 small records: byte-exact Get/Has/scan/Count right after the Put, after one more Put and after a restart; a panic or memory fault is a violation. distinct_nontrivial = distinct (config, lengths) cases",
+			"Limits: keys of 65536, 65537 and 65536+n / 131072+n bytes whose first n bytes equal a stored n-byte key AND whose 32-bit hash is forged to equal the stored key's hash (n in {0,4,8,16,256,65532}; n = 0: the stored key is the empty key): Put must fail and leave file-system image, file list and Count unchanged, Get/GetAppend/Has/Delete must behave as for an absent key; value of MaxValueLength+1 rejected the same way (thorough: exactly MaxValueLength round-trips incl. recovery). On the repository's own file systems (fs.OSMMap: mapped files whose mapping grows; fs.OS): values of 0, 64 KiB, 3 MiB, 70 MiB, 130 MiB (thorough: 300 MiB) into an empty database and after 2 small records: byte-exact Get/Has/scan/Count right after the Put, after one more Put and after a restart; a panic or memory fault is a violation; plus records put across the 1 GiB offset of a segment (the initial mapping window of fs.OSMMap; the file is extended sparsely instead of written). distinct_nontrivial = distinct (config, lengths) cases",
 		Assumptions:   []string{"input enumeration over a stated boundary alphabet: the numeric ranges themselves (2^16 x 2^29) are not exhausted", "content of keys/values is a fixed pattern"},
 		QuickBudget:   100 * time.Second,
 		ThorBudget:    25 * time.Minute,
